@@ -2352,9 +2352,12 @@ class Parameters:
                     # A watcher waiting for the end of a batch hands its
                     # place in the queue over to the watcher replacing it
                     # below, so that the method still runs exactly once
+                    # (compared by value: in a deep copy the watcher kept
+                    # here and the one registered on the sub-object are equal
+                    # but distinct tuples)
                     waiting = wobj.param._state_watchers
-                    if any(w is q for q in waiting):
-                        wobj.param._state_watchers = [q for q in waiting if q is not w]
+                    if any(w == q for q in waiting):
+                        wobj.param._state_watchers = [q for q in waiting if not (w == q)]
                         requeue.append(wobj)
             else:
                 continue
